@@ -74,7 +74,11 @@ def run(chk):
                 fails.append({"kind": "split-schema-differs-from-single-file-schema", "files": files, "differs_in": diff})
             # ---- injected errors
             if len(files) > 1:
-                victim = chk.rng.choice([p for p in files if p != "main.fcp"])
+                mods_only = [p for p in files if p != "main.fcp"]
+                base = lambda p: p.rsplit("/", 1)[-1]
+                twins = [p for p in mods_only if sum(1 for q in mods_only if base(q) == base(p)) > 1]
+                # prefer a module that shares its file name with another one (diagnostics must still cite the right text)
+                victim = chk.rng.choice(twins) if twins and chk.rng.random() < 0.6 else chk.rng.choice(mods_only)
                 kind = chk.rng.choice(["syntax", "resolution", "missing"])
                 bad = dict(files)
                 if kind == "syntax":
